@@ -96,6 +96,22 @@ static int run_scope(unsigned long long seed, long nops)
                 fail("temporary allocation not aligned");
             ++n_alloc;
         }
+        else if (k < 85)
+        { // get_temporary_stack(size) below live allocators "creates the per-thread stack if it wasn't already created":
+          // the existing stack comes back as it is, whatever size is asked for (larger than what it would grow by included)
+            std::size_t n = g.chance(50) ? stack.next_capacity() * 2 + g.below(4096) : 1 + g.below(8192);
+            auto        before = stack.top();
+            auto&       again = get_temporary_stack(n);
+            ++checks;
+            if (&again != &stack)
+                fail(fmt("get_temporary_stack(%zu) returned another stack while temporary allocators of this thread are live", n));
+            if (!(stack.top() == before))
+                fail(fmt("get_temporary_stack(%zu) moved the top of the thread's temporary stack (depth %zu)", n, frames.size()));
+            for (auto& fr : frames)
+                for (auto& al : fr.allocs)
+                    if (*static_cast<unsigned char*>(al.first) != (unsigned char)al.second)
+                        fail(fmt("a live temporary allocation changed during get_temporary_stack(%zu)", n));
+        }
         else
             pop();
     }
